@@ -217,7 +217,8 @@ class EncDomain(Domain):
             return A("QUOTED")
         if d in ("urllib.parse.unquote", "urllib.parse.unquote_plus"):
             a = flat(args[0]) if args else BOT
-            return frozenset({"QUOTED": "DECODED"}.get(x, x) for x in a) or A("DECODED")
+            # unquoting something that is already a decoded path decodes it a second time ('%2541' -> '%41' -> 'A')
+            return frozenset({"QUOTED": "DECODED", "DECODED": "OVERDECODED", "LATIN1": "OVERDECODED", "BYTES_L1": "OVERDECODED"}.get(x, x) for x in a) or A("DECODED")
         if d == "wsgiref.util.request_uri":
             return A("URL")
         if d in ("urllib.parse.urljoin", "posixpath.join", "posixpath.normpath", "os.path.join"):
@@ -270,7 +271,7 @@ def enc_analysis(ctx) -> Analysis:
     return a
 
 
-BAD_IN_HREF = {"URL", "QUOTED", "LATIN1", "BYTES_L1"}
+BAD_IN_HREF = {"URL", "QUOTED", "LATIN1", "BYTES_L1", "OVERDECODED"}
 
 
 @rule("C16", "Q2", floor=20, kind="S",
@@ -347,7 +348,12 @@ def f1(ctx):
         if v is None:
             raise AnalysisError("WSGIRequest.%s is no longer assigned" % fld)
         fv = flat(v)
-        bad = fv & {"LATIN1", "BYTES_L1"}
+        bad = fv & {"LATIN1", "BYTES_L1", "OVERDECODED"}
+        if "OVERDECODED" in bad:
+            obs.append(ctx.bad(init.qualname, init.where, "WSGIRequest.%s is decoded exactly once" % fld,
+                               "WSGIRequest.%s is percent-decoded a second time (PATH_INFO is already decoded by the gateway): a member named 'x%%41.ics' is listed "
+                               "as 'x%%2541.ics' but looked up as 'xA.ics', so the listed href answers 404" % fld))
+            continue
         obs.append(ctx.ob(not bad, init.qualname, init.where, "WSGIRequest.%s is re-decoded" % fld, "state %s" % sorted(fv),
                           "WSGIRequest.%s holds the PEP 3333 (iso-8859-1) decoding of PATH_INFO (%s): through WSGI a member named 'é.vcf' is "
                           "stored and listed under a mojibake name and the listed href answers 404" % (fld, sorted(bad))))
@@ -364,3 +370,38 @@ def f1(ctx):
 def l1(ctx):
     from .c01 import h1
     return h1(ctx)
+
+
+PROP_FUNCS = {"get_all_properties", "get_properties", "get_property_names", "get_properties_with_data", "get_property_from_name"}
+
+
+@rule("C16", "H1", floor=5, kind="S",
+      desc="href/resource pairing: inside a loop over (href, resource) pairs, the property getters are given the href "
+           "bound by the same loop as the resource (href-valued properties are resolved against it)")
+def h1(ctx):
+    obs = []
+    for q in (WD + ".PropfindMethod.handle", "xandikos.caldav.CalendarQueryReporter.report", "xandikos.carddav.AddressbookQueryReporter.report",
+              "xandikos.davcommon.MultiGetReporter.report"):
+        fi = ctx.func(q)
+        cfg = ctx.cfg(fi)
+        du = DefUse(cfg)
+        for n in cfg.stmt_nodes():
+            for c in n.calls():
+                d = (dotted(c.func) or "").split(".")[-1]
+                if d not in PROP_FUNCS:
+                    continue
+                args = list(c.args)
+                if d == "get_properties_with_data":
+                    args = args[1:]
+                if len(args) < 2 or not isinstance(args[1], ast.Name):
+                    continue
+                rdefs = [x for x in du.reaching(n, args[1].id) if x.kind == "for"]
+                if not rdefs:
+                    continue
+                ok = isinstance(args[0], ast.Name) and any(x.kind == "for" and x.node is rdefs[0].node for x in du.reaching(n, args[0].id)) \
+                    and all(x.kind == "for" and x.node is rdefs[0].node or x.kind == "assign" and "ensure_trailing_slash" in src(x.value) for x in du.reaching(n, args[0].id))
+                obs.append(ctx.ob(ok, q, where(fi, n), "%s(href, resource) use the pair of one iteration" % d,
+                                  "`%s` and `%s` are bound by the same loop" % (src(args[0]), src(args[1])),
+                                  "`%s` is given the href `%s` together with the resource `%s` of the current iteration: href-valued properties of each member "
+                                  "(add-member, home sets, principal-URL) are resolved against the wrong base" % (d, src(args[0]), src(args[1]))))
+    return obs
